@@ -92,6 +92,7 @@ def run(ck, a):
       o = gp.step(s_, st, jp.zeros(s_.act_size()))
       return o.qdd, o.qd
     tag = '%s%s' % ('free+' if free else 'world-', '.'.join(words) or 'single')
+    hard = bool(free and any('s' in w for w in words))      # free root + slide: 7x7 symbolic solve with a symbolic slide coordinate -- extended (thorough tier only)
     try:
       (qdd, qd2), cj = core.run(ctx, f, core.obj_array(q), core.obj_array(qd), *pars)
     except (core.SXUnsupported, ZeroDivisionError, ValueError, AssertionError) as e_:
@@ -118,7 +119,7 @@ def run(ck, a):
     defs = []
     g_energy = fr.formula(lift(power) == 0)
     defs = [f_ != 0 for f_ in fr.factors()]
-    ck.add(Ob('energy: first-order drift vanishes/%s' % tag, side + defs, g_energy, timeout=180, meta={'tag': tag}))
+    ck.add(Ob('energy: first-order drift vanishes/%s' % tag, side + defs, g_energy, timeout=180, core=not hard, meta={'tag': tag}))
     # the step's velocity increment is dt * qdd (no damping)
     ck.add(Ob('step uses qdd: qd\' == qd + dt qdd/%s' % tag, side + defs, z3.And([fr.formula(lift(qd2[i]) == lift(s_add(qd[i], s_mul(dt, qdd[i])))) for i in range(nv)]), timeout=120, meta={'tag': tag}))
     if free:
@@ -141,7 +142,7 @@ def run(ck, a):
           rate[c] = s_add(rate[c], s_mul(m_b, a_c))
       for c in range(3):
         goals.append(fr.formula(lift(rate[c]) == lift(s_mul(mt, g[c]))))
-      ck.add(Ob('momentum: d/dt sum m v == (sum m) g to first order/%s' % tag, side + [f_ != 0 for f_ in fr.factors()], z3.And(goals), timeout=180, meta={'tag': tag}))
+      ck.add(Ob('momentum: d/dt sum m v == (sum m) g to first order/%s' % tag, side + [f_ != 0 for f_ in fr.factors()], z3.And(goals), timeout=180, core=not hard, meta={'tag': tag}))
     if words == ['h', 'h']:
       ck.add(Ob('twin/reach/' + tag, side + defs, None, expect='sat', timeout=60))
       wrong = fr.formula(lift(s_add(power, s_mul(qd[0], qd[0]))) == 0)
